@@ -158,7 +158,7 @@ func nodeVarSpec(f *core.FuncInfo, vars []*types.Var) *core.FlowSpec {
 func nodeVarsOf(f *core.FuncInfo) []*types.Var {
 	seen := map[*types.Var]bool{}
 	var out []*types.Var
-	ast.Inspect(f.Body(), func(x ast.Node) bool {
+	core.InspectBody(f, func(x ast.Node) bool {
 		if id, ok := x.(*ast.Ident); ok {
 			if v, ok := f.Info().ObjectOf(id).(*types.Var); ok && !v.IsField() && isMavlNodePtr(v.Type()) && !seen[v] {
 				seen[v] = true
